@@ -87,6 +87,29 @@ theorem delivered_watermarks_ok (n : Nat) (lat : Int) (evs : List REv) :
         exact ⟨⟨h.1, (ih _ h.2).1⟩, (ih _ h.2).2⟩
   exact key pre zeroTime hok
 
+/-- several operators and a runner whose watermarker survives redeployments: for every starting watermarker `w`
+(the runner creates it once; `HandleDeploy` does not reset it), every batch size, every routing of the keyed events
+and every operator `j`, what `j` has received is a subsequence (order kept, values unchanged) of the stream
+`sendOperatorEvent` produced, which satisfies the watermark law at every prefix with the maximum taken over ALL
+forwarded events; the watermarks `j` has received are a subsequence of the runner's broadcast watermarks and so
+never decrease -/
+theorem delivered_to_operators_ok (n : Nat) (w : Watermarker) (evs : List REvK) (j : Nat) :
+    let sent := sentStream w ((sentPrefixK (rawCountK evs / batchSize n * batchSize n) evs).map REvK.erase)
+    (deliveredTo n w evs j).Sublist sent ∧
+    (∀ k, streamOK w.lateness w.maxTs (sent.take k)) ∧
+    (watermarksOf (deliveredTo n w evs j)).Pairwise (· ≤ ·) := by
+  intro sent
+  have hsub : (deliveredTo n w evs j).Sublist sent := by
+    unfold deliveredTo
+    refine (List.take_sublist _ _).trans ?_
+    have := streamOf_sublist j (sentTagged w (sentPrefixK (rawCountK evs / batchSize n * batchSize n) evs))
+    rw [sentTagged_erase] at this
+    exact this
+  refine ⟨hsub, fun k => streamOK_all_prefixes w _ k, ?_⟩
+  have h1 := watermarksOf_sublist hsub
+  rw [watermarksOf_sentStream] at h1
+  exact List.Pairwise.sublist h1 (runnerRun_pairwise _ w)
+
 /-- after any interleaving of the runners' watermark messages, the registry's composite watermark is the minimum over
 all runners (configured or reporting) of the runner's latest report, a runner that has not reported counting as the epoch -/
 theorem composite_eq_min (ids : List String) (msgs : List (String × Int)) (hne : msgs ≠ []) :
@@ -172,6 +195,33 @@ theorem handler_sees_composite (store : Store) (ids : List String) (maxBatch : N
   have h2 := (step_tracks _ _ h1 e).2 r hr
   rw [h2, epochOf_append]
 
+/-! ### D58 (open finding): what the handler is told before the first watermark message of a deployment
+
+The property's minimum counts a runner that has not reported as the epoch, so with no report at all it is the epoch.
+`TimerRegistry.watermark` is only assigned in `AdvanceWatermark`; until then it is `time.Time{}`. -/
+
+/-- the property's minimum for a deployment with runners `ids` that has received `msgs`: the minimum of the upstream map
+(every configured runner starts at the epoch) — defined whether or not a message has arrived -/
+def propMin (ids : List String) (msgs : List (String × Int)) : Int :=
+  (reportAll (Ups.init ids, zeroTime) msgs).1.composite
+
+/-- FULL STATEMENT (false, see `handler_told_initial_counterexample`): every request tells `propMin` of the current deployment.
+PROVED (`_partial`): it does once at least one watermark message of the current deployment has arrived (including the
+one being handled) -/
+theorem handler_told_min_partial (store : Store) (ids : List String) (maxBatch : Nat) (pre : List OpEv) (e : OpEv)
+    (hmsg : (epochOf (ids, []) (pre ++ [e])).2 ≠ []) :
+    ∀ r ∈ ((Op.runState ⟨Registry.new store ids, [], maxBatch⟩ pre).step e).2,
+      r.told = propMin (epochOf (ids, []) (pre ++ [e])).1 (epochOf (ids, []) (pre ++ [e])).2 := by
+  intro r hr
+  rw [handler_sees_composite store ids maxBatch pre e r hr]
+  exact (reportAll_spec _ _ zeroTime (Ups.init_spec _).1).2.2 hmsg
+
+/-- before the first watermark message the handler is told `time.Time{}`, which is below the property's minimum (the epoch) -/
+theorem handler_told_initial_counterexample :
+    ((Op.runState ⟨Registry.new (Store.new [] 1 0 1 64) ["a", "b"], [], 1⟩ []).step (.keyed [0x6b] [])).2.map (·.told)
+      = [zeroTime] ∧
+    propMin ["a", "b"] [] = 0 ∧ zeroTime < 0 := by decide
+
 /-- handling a watermark message only adds `TimerExpired` events whose timestamp is at or before the new composite
 watermark: no timer later than the minimum of the upstreams fires. (Events are conserved: what the handler received
 during the step plus what is still batched is the old batch followed by the new events.) -/
@@ -213,6 +263,13 @@ example : ((Op.runState ⟨Registry.new (Store.new [] 1 0 1 64) ["a"], [], 1⟩
 /-- runner `a` completes at watermark 5 while `b` is at 50: the next report of `b` leaves the composite at 5 -/
 example : ((Op.runState ⟨Registry.new (Store.new [] 1 0 1 64) ["a", "b"], [], 1⟩
       [.wmark "a" 5, .wmark "b" 50, .complete "a", .wmark "b" 60]).step (.keyed [0x6b] [])).2.map (·.told) = [5] := by decide
+
+/-- two operators, batches of 2, a watermarker that already saw 50 in an earlier deployment: operator 1 gets the
+event routed to it and both watermarks (49: the old maximum still counts; then 99) -/
+example : deliveredTo 2 ⟨50, 0⟩ [.events [(0, 10)], .events [(1, 20)], .tick, .events [(0, 100)], .events [], .tick] 1 =
+    [.ev 20, .wm 49] ∧
+    deliveredTo 2 ⟨50, 0⟩ [.events [(0, 10)], .events [(1, 20)], .tick, .events [(0, 100)], .events [], .tick] 0 =
+    [.ev 10, .wm 49, .ev 100, .wm 99] := by decide
 
 /-- a report above the previous one cannot lower the composite -/
 example : (Ups.init ["a", "b"]).composite ≤ ((Ups.init ["a", "b"]).report "a" 10).2 := by decide
